@@ -223,7 +223,7 @@ void Engine::exec_op(const J &op, int task, int idx) {
 		for (int round = 0; round < 60 && stable < 2; round++) {
 			size_t w = bus.wire.size();
 			sim::sleep_us(2200000);
-			for (size_t i : order) bus.emit((int) i, MSG_BM_FREE, {(uint8_t) round}, {}, 0, 12);
+			for (size_t i : order) bus.emit((int) i, MSG_SYS_PONG, {(uint8_t) round}, {}, 0, 12);
 			flush_and_quiesce(true);
 			stable = (bus.wire.size() == w) ? stable + 1 : 0;
 		}
@@ -329,10 +329,20 @@ void Engine::run_bus_events(const J &ev) {
 			if (n < 0) continue;
 			bus::Node &nd = bus.nodes[(size_t) n];
 			if (nd.parent < 0) continue;
-			bus::Node &pa = bus.nodes[(size_t) nd.parent];
-			if (!bus.subtree_present(nd.parent)) continue;
+			if (!bus.subtree_present(nd.parent) && !(k == "new" && e.has("as"))) continue;
+			if (k == "new" && e.has("as")) {
+				// re-login at another local address below the same or another interface
+				std::vector<uint8_t> na = j_bytes(e["as"]);
+				std::vector<uint8_t> pa2(na.begin(), na.end() - 1);
+				int np = bus.find(pa2);
+				if (np < 0 || bus.find(na) >= 0 || !bus.subtree_present(np)) continue;
+				auto &oc = bus.nodes[(size_t) nd.parent].children; oc.erase(std::remove(oc.begin(), oc.end(), n), oc.end());
+				nd.addr = na; nd.parent = np; bus.nodes[(size_t) np].children.push_back(n);
+			}
 			nd.present = (k == "new");
 			if (k == "new") nd.tx_seq = 1;
+			bus::Node &pa = bus.nodes[(size_t) nd.parent];
+			if (!bus.subtree_present(nd.parent)) continue;
 			pa.tab_version = (uint8_t) (pa.tab_version == 255 ? 1 : pa.tab_version + 1);
 			if (pa.enum_active) pa.enum_dirty = true;
 			std::vector<uint8_t> d{pa.tab_version, nd.addr.back()};
